@@ -22,7 +22,8 @@ TRUSTED = ["coq/Dir/DirModel.v + PyLines.v are hand transcriptions of parse_dire
 ORACLES = {
     "tokenize": "options_to_items(block): Section variable; exercised by every correspondence case with an option block "
                 "(captured call -> table); C08_styles_interchangeable additionally assumes O_tok_nl (a final newline does not "
-                "change the items of a block of unindented single-line pairs): checked in search on the real tokenizer",
+                "change the items nor the comments flag of a block of unindented single-line pairs): checked in search on the real "
+                "tokenizer; C08_styles_interchangeable_c07_partial instantiates the oracle with the C07 model (coq/Dir/DirTokenizer.v)",
     "opt_conv": "option_spec[name](value): per-signature function into res; captured per case",
     "yaml_load": "yaml.safe_load (validate_options=False path): captured per case",
     "O_re_multiline": "re.search('^-{3,}', MULTILINE) = first line starting with '---' (lines hold no separator): dash-style cases",
@@ -712,8 +713,10 @@ def check_styles(ctx, sc):
     # O_tok_nl on the real tokenizer
     blk = "\n".join(sc["kv"])
     try:
-        if options_to_items(blk)[0] != options_to_items(blk + "\n")[0]:
-            ctx.fail("oracle:O_tok_nl", sc, "a final newline changes the items of a block of single-line pairs")
+        ia, sa = options_to_items(blk)
+        ib, sb = options_to_items(blk + "\n")
+        if ia != ib or bool(sa.has_comments) != bool(sb.has_comments):
+            ctx.fail("oracle:O_tok_nl", sc, "a final newline changes the items / the comments flag of a block of single-line pairs")
             ok = False
     except Exception:
         pass
